@@ -35,7 +35,8 @@ fn check_n(n: u64) -> Result<(), String> {
 }
 
 fn run_cmd(dir: &str, prog: &str, a: &[&str]) -> Result<String, String> {
-    let out = Command::new(prog).args(a).current_dir(dir).output().map_err(|e| format!("cannot run {prog}: {e}"))?;
+    // the TLA+ tools leave temporary directories behind: keep them inside the scratch directory, which is removed afterwards
+    let out = Command::new(prog).args(a).current_dir(dir).env("JAVA_TOOL_OPTIONS", format!("-Djava.io.tmpdir={dir}")).output().map_err(|e| format!("cannot run {prog}: {e}"))?;
     Ok(format!("{}{}", String::from_utf8_lossy(&out.stdout), String::from_utf8_lossy(&out.stderr)))
 }
 
